@@ -1174,3 +1174,144 @@ class UpdateCorrespondingState(FnCheck):
             return
         ex.oblige(st, 'state_in_transaction_takes_the_version_of_this_descriptor',
                   Val.i(z3.Select(st.get_arr('f:DescriptorVersion'), self.new_state.e)) == self.dv.e)
+
+
+@register
+class DescriptorProcessTransaction(FnCheck):
+    id = 'C02.descriptor_process_transaction'
+    prop = 'C02'
+    tag = 'S'
+    opaque_ok = True
+    target = f'{TR}:DescriptorTransaction.process_transaction'
+    doc = ('DescriptorTransaction.process_transaction, arbitrary queued item: CREATE reports a copy, adds the descriptor '
+           'to the table and then brings its state along; DELETE removes the descriptor subtree with its states and '
+           'reports copies of all of them; UPDATE reports the new descriptor, overwrites the STORED descriptor from it, '
+           'brings the state along and re-indexes the stored descriptor AFTER it was overwritten (C11: lookups by the '
+           'changed attributes); the parent version is incremented only for create / delete. MdibVersion becomes '
+           'new_mdib_version iff something is queued')
+    trusted = ('table operations (C11 leaf contracts); _update_corresponding_state / _increment_parent_descriptor_version / '
+               '_handle_state_updates have their own contracts',)
+    LOGGED = ('mk_copy', 'add_object_no_lock', 'update_object_no_lock', 'update_from_other_container', '_update_corresponding_state',
+              '_increment_parent_descriptor_version', 'get_all_descriptors_in_subtree', 'rm_descriptors_and_states',
+              '_handle_state_updates')
+
+    def setup(self, b):
+        st = b.st
+        ids = b.ex.ctx.builtin_class_ids
+        self.upd = b.obj('descriptor_updates')
+        st.assume(z3.Select(st.get_arr('C'), self.upd.e) == ids['dict'])
+        st.assume(z3.Select(st.get_arr('DN'), self.upd.e) >= 0)
+        self.tbl = b.obj('descriptions')
+        self.mdib = b.obj('mdib', descriptions=self.tbl, mdib_version=b.int('mdib_version'))
+        self.newv = b.int('new_mdib_version')
+        self.o = b.obj('self', cls=(TR, 'DescriptorTransaction'), _mdib=self.mdib, descriptor_updates=self.upd,
+                       new_mdib_version=self.newv)
+        b.distinct(self.o, self.mdib, self.upd, self.tbl)
+        st.ghost['calls'] = ()
+        return self.o, [b.bool('set_determination_time')], {}
+
+    container_hints = {'self.descriptor_updates': 'dict'}
+    field_types = {'mdib_version': 'int', 'new_mdib_version': 'int'}
+    objref_fields = ('old', 'new')
+    stable_fields = ('old', 'new', 'descriptor_updates', '_mdib', 'descriptions', 'new_mdib_version', 'parent_handle', 'Handle')
+
+    def callees(self, ex):
+        def result(ex_, st, args, kwargs):
+            r = st.alloc('TransactionResult')
+            for f in ('descr_created', 'descr_updated', 'descr_deleted', 'alert_updates', 'metric_updates', 'ctxt_updates',
+                      'comp_updates', 'op_updates', 'rt_updates'):
+                st.write_field(r, f, st.new_list())
+            st.ghost['c:proc'] = r.e
+            return r
+        ex.ctx.map_functions['.mk_copy'] = z3.Function('mk_copy_of', Val, Val)     # [d.mk_copy() for d in ...] (C03.mk_copy)
+        return {f'{TR}:TransactionResult': Pure(result, name='TransactionResult()'), 'TransactionResult': Pure(result, name='TransactionResult()'),
+                'sdc11073.mdib.transactionsprotocol:TransactionResult': Pure(result, name='TransactionResult()')}
+
+    def hooks(self, ex):
+        chk = self
+
+        class H:
+            tracked_names = chk.LOGGED
+
+            @staticmethod
+            def on_loop_havoc(ex_, st, node):
+                st.ghost['calls'] += (('#loop', ex_.loop_ordinal(node)),)
+
+            @staticmethod
+            def on_call(ex_, st, fv, keys, args, kwargs, node):
+                name = getattr(fv, 'name', None) or (fv.fn.name if fv.t == 'repo' else None)
+                if name not in chk.LOGGED:
+                    return None
+                recv = fv.recv if fv.t == 'method' else getattr(fv, 'self_v', None)
+                st.ghost['calls'] += ((name, st.box(recv) if recv is not None else None, tuple(st.box(a) for a in args)),)
+                if name == 'mk_copy':
+                    return [(st, st.alloc('Copy'))]
+                if name in ('get_all_descriptors_in_subtree', '_handle_state_updates'):
+                    r = st.alloc('list')
+                    st.set_list_seq(r, fresh(SeqVal, name))
+                    st.ghost['c:' + name] = r.e
+                    return [(st, r)]
+                return [(st, NONE)]
+
+            @staticmethod
+            def on_attr_write(ex_, st, o, attr, val, node):
+                if attr == 'mdib_version':
+                    st.ghost['c:version_set'] = st.box(val)
+                return None
+        return H
+
+    def loops(self, ex):
+        def inv(ex_, st, env):
+            if env['_phase'] != 'preserve':
+                return z3.BoolVal(True)
+            calls = st.ghost['calls']
+            heads = [i for i, c in enumerate(calls) if c == ('#loop', 0)]
+            own = tuple(c for c in calls[heads[-1] + 1:] if c[0] != '#loop') if heads else ()
+            names = [c[0] for c in own]
+            ob = lambda n, f: ex_.oblige(st, 'item.' + n, f, kind='loop')   # noqa: E731
+            item = st.box(st.locals['tr_item'])
+            old = z3.Select(st.get_arr('f:old'), Val.oid(item))
+            new = z3.Select(st.get_arr('f:new'), Val.oid(item))
+            tbl = Val.ref(self.tbl.e)
+            if 'update_from_other_container' in names:
+                core = [c for c in own if c[0] in ('update_from_other_container', '_update_corresponding_state', 'update_object_no_lock')]
+                ob('update.stored_descriptor_overwritten_then_state_then_reindexed', z3.And(
+                    z3.BoolVal([c[0] for c in core] == ['update_from_other_container', '_update_corresponding_state', 'update_object_no_lock']),
+                    core[0][1] == old, core[0][2][0] == new, core[1][2][0] == old, core[2][1] == tbl, core[2][2][0] == old)
+                    if len(core) == 3 else z3.BoolVal(False))
+                ob('update.no_parent_increment', z3.BoolVal('_increment_parent_descriptor_version' not in names))
+                ob('update.only_for_an_item_with_old_and_new', z3.And(z3.Not(Val.is_none(old)), z3.Not(Val.is_none(new))))
+            elif 'add_object_no_lock' in names:
+                core = [c for c in own if c[0] in ('mk_copy', 'add_object_no_lock', '_update_corresponding_state')]
+                ob('create.copy_reported_descriptor_added_then_state', z3.Implies(z3.Not(Val.is_none(new)), z3.And(
+                    z3.BoolVal([c[0] for c in core] == ['mk_copy', 'add_object_no_lock', '_update_corresponding_state']),
+                    core[0][1] == new, core[1][1] == tbl, core[1][2][0] == new, core[2][2][0] == new)) if len(core) == 3 else z3.BoolVal(False))
+                ob('create.only_for_an_item_without_old', Val.is_none(old))
+            elif 'rm_descriptors_and_states' in names:
+                core = [c for c in own if c[0] in ('get_all_descriptors_in_subtree', 'rm_descriptors_and_states')]
+                ob('delete.whole_subtree_removed_with_its_states', z3.And(
+                    z3.BoolVal([c[0] for c in core] == ['get_all_descriptors_in_subtree', 'rm_descriptors_and_states']),
+                    core[0][2][0] == old, core[1][2][0] == Val.ref(st.ghost['c:get_all_descriptors_in_subtree']))
+                    if len(core) == 2 and 'c:get_all_descriptors_in_subtree' in st.ghost else z3.BoolVal(False))
+                ob('delete.only_for_an_item_without_new', z3.And(z3.Not(Val.is_none(old)), Val.is_none(new)))
+            else:
+                ob('every_queued_item_is_created_deleted_or_updated', z3.BoolVal(False))
+            return z3.BoolVal(True)
+        return {0: LoopSpec(inv=inv, havoc_heap=['L', 'DK', 'DV', 'DN'])}
+
+    def finish(self, ex, st0, outcomes, b):
+        names = {o.name for o in ex.ctx.obligations}
+        for n in ('item.update.stored_descriptor_overwritten_then_state_then_reindexed', 'item.create.copy_reported_descriptor_added_then_state',
+                  'item.delete.whole_subtree_removed_with_its_states'):
+            ex.oblige(st0, 'handles_' + n.split('.')[1], z3.BoolVal(n in names))
+
+    def post(self, ex, st0, st, outcome, b):
+        if outcome[0] == 'exc':
+            return
+        nonempty = z3.Select(st0.get_arr('DN'), self.upd.e) > 0
+        if 'c:version_set' in st.ghost:
+            ex.oblige(st, 'mdib_version_becomes_new_mdib_version', z3.And(nonempty, st.ghost['c:version_set'] == Val.int(self.newv.e)))
+        else:
+            ex.oblige(st, 'empty_transaction_keeps_mdib_version', z3.Not(nonempty))
+        if 'c:proc' in st.ghost:
+            ex.oblige(st, 'returns_the_transaction_result', st.box(outcome[1]) == Val.ref(st.ghost['c:proc']))
